@@ -273,6 +273,8 @@ def run(chk):
     p_contributors(chk)
     p_get_contributors(chk)
     p_handle_new_basepath(chk)
+    p_do_request(chk)
+    p_write_expanded_page(chk)
     bounded(chk)
     chk.assumptions += [
         "api.api_request_limit >= 1 (configuration precondition; the property quantifies over 1..50)",
@@ -451,6 +453,142 @@ def replay_basepath(model, obligation):
         if not ok:
             return True, {"registered_before": k, "interleaving": "a later image-info batch registers File:Late.png while get_siteinfo_for is suspended",
                           "result": "File:Late.png is neither scheduled nor registered any more: its description page and contributors never reach the archive"}, "lost_registration"
+    return False, {"cases": 3}, None
+
+
+# ----------------------------------------------------------------------------- sapi.MwApi.do_request: the request slot is released on every exit
+SAPI = "mwlib/network/sapi.py"
+
+
+def p_do_request(chk):
+    """Every API call of a fetch goes through MwApi.do_request, which holds one of the api_request_limit slots of the
+    site while the request is under way.  Contract (C11: fetching terminates; a page that does not exist is skipped
+    without failing the rest - its request fails with the API's error answer): whatever the request does - return,
+    or raise anything - the slot taken is given back exactly once; with no semaphore configured nothing is touched."""
+    from pyvc.values import ClassRef
+    ex = Explorer()
+    mod = source.module(SAPI)
+    fn = ex.function(SAPI, "MwApi.do_request")
+
+    def sem_acquire(I, s_, *a, **k):
+        I.ghost["held"] += 1
+        I.ghost["acquired"] += 1
+        return True
+
+    def sem_release(I, s_):
+        I.ghost["held"] -= 1
+    ex.methods[("sem", "acquire")] = Model("Semaphore.acquire", sem_acquire)
+    ex.methods[("sem", "release")] = Model("Semaphore.release", sem_release)
+
+    def may_fail(name):
+        def f(I, self, *a, **k):
+            I.ghost["calls"].append(name)
+            kind = I.choose(3, f"{name}_outcome")
+            if kind == 1:
+                I.throw("RuntimeError", "api error answer")
+            if kind == 2:
+                from pyvc.interp import SymRaise
+                from pyvc.values import ExcClass, ExcVal
+                raise SymRaise(ExcVal(ExcClass("GreenletExit", ["GreenletExit", "BaseException", "object"]), []))
+            return PObj("answer", {})
+        return Model(f"MwApi.{name} (may raise)", f)
+    for nm in ("_ensure_oauth2_token", "_post", "_do_request"):
+        ex.methods[("MwApi", nm)] = may_fail(nm)
+
+    def harness(I):
+        I.ghost.update({"held": 0, "acquired": 0, "calls": []})
+        with_sem = I.decide(I.fresh("semaphore_configured", z3.BoolSort()))
+        me = PObj("MwApi", {"limit_fetch_semaphore": PObj("sem", {}) if with_sem else None})
+        use_post = I.decide(I.fresh("use_post", z3.BoolSort()))
+        out = ex.run_function(I, fn, [me], {"use_post": use_post, "action": "query"})
+        I.oblige("slot_given_back_on_every_exit", I.ghost["held"] == 0, meta={"exit": "return" if out.returned else repr(out.exc), "calls": list(I.ghost["calls"])})
+        I.oblige("one_slot_per_request", I.ghost["acquired"] == (1 if with_sem else 0))
+        if out.returned:
+            I.oblige("exactly_one_request_sent", [c for c in I.ghost["calls"] if c != "_ensure_oauth2_token"] == (["_post"] if use_post else ["_do_request"]))
+    chk.prove("sapi.MwApi.do_request", harness, ex, targets=[fn], replay=replay_do_request)
+
+
+def replay_do_request(model, obligation):
+    """the real method with a counting semaphore and a request that fails"""
+    import types
+    from mwlib.network import sapi
+
+    class Sem:
+        held = 0
+
+        def acquire(self, *a, **k):
+            self.held += 1
+            return True
+
+        def release(self):
+            self.held -= 1
+
+    class Boom(Exception):
+        pass
+    for where in ("_ensure_oauth2_token", "_do_request", "_post", None):
+        for use_post in (False, True):
+            sem = Sem()
+            fake = types.SimpleNamespace(limit_fetch_semaphore=sem)
+            for nm in ("_ensure_oauth2_token", "_do_request", "_post"):
+                def f(*a, _nm=nm, **k):
+                    if _nm == where:
+                        raise Boom(_nm)
+                    return {}
+                setattr(fake, nm, f)
+            for nm in dir(sapi.MwApi):      # helpers a refactoring may add
+                if nm.startswith("_") and not nm.startswith("__") and not hasattr(fake, nm) and callable(getattr(sapi.MwApi, nm)):
+                    setattr(fake, nm, types.MethodType(getattr(sapi.MwApi, nm), fake))
+            try:
+                sapi.MwApi.do_request(fake, use_post=use_post, action="query")
+            except Boom:
+                pass
+            if sem.held != 0:
+                return True, {"request": "POST" if use_post else "GET", "fails_in": where, "slots_still_held_afterwards": sem.held,
+                              "consequence": "every failed request (e.g. the API's error answer for a page that does not exist) leaks one of the api_request_limit slots; when all are gone every further request blocks forever"}, "slot-leak"
+    return False, {"cases": 8}, None
+
+
+# ----------------------------------------------------------------------------- FsOutput.write_expanded_page: every expanded text handed over is stored
+def p_write_expanded_page(chk):
+    """The fetcher hands every expanded article text it received to FsOutput.write_expanded_page(title, ns, txt, revid).
+    Contract (C11: the archive holds, for every listed article, the text the wiki serves for it - the requested revision,
+    else the current one; the same title can be listed with and without a revision id): every call appends exactly one
+    record - header naming title, namespace and revision, then the text - whatever was stored before."""
+    import json
+    ex = Explorer()
+    fn = ex.function(FETCH, "FsOutput.write_expanded_page")
+    ex.methods[("revfile", "write")] = Model("file.write", lambda I, f, d: I.ghost["written"].append(d))
+    # myjson.dumps = json.dumps on plain data (library contract; evaluated on the concrete record)
+    ex.contracts["mwlib/utils/myjson.py:dumps"] = lambda I, o, **k: json.dumps(o, **k)
+
+    def harness(I):
+        I.ghost["written"] = []
+        revid = [None, 7][I.choose(2, "revid")]
+        seen = [{}, {"Alpha": {"title": "Alpha", "ns": 0, "revid": 3}}, {"Alpha": {"title": "Alpha", "ns": 0, "expanded": 1}}, {7: {"title": "Alpha"}}][I.choose(4, "stored_before")]
+        me = PObj("FsOutput", {"revfile": PObj("revfile", {}), "seen": dict(seen)})
+        out = ex.run_function(I, fn, [me, "Alpha", 0, "current text"], {"revid": revid})
+        I.oblige("no_raise", out.returned)
+        w = [x if isinstance(x, str) else str(x) for x in I.ghost["written"]]
+        want = {"title": "Alpha", "ns": 0, "expanded": 1}
+        if revid is not None:
+            want["revid"] = revid
+        I.oblige("one_record_appended", len(w) == 2 and w[1] == "current text" and w[0].startswith("\n\x0c --page-- ") and w[0].endswith("\n")
+                 and json.loads(w[0][len("\n\x0c --page-- "):]) == want, meta={"written": w, "stored_before": seen, "revid": revid})
+    chk.prove("fetch.FsOutput.write_expanded_page", harness, ex, targets=[fn], replay=replay_write_expanded)
+
+
+def replay_write_expanded(model, obligation):
+    import io
+    import types
+    from mwlib.network import fetch
+    for first, second in (((3, "old text"), (None, "current text")), ((None, "current text"), (3, "old text")), ((None, "a"), (None, "b"))):
+        fake = types.SimpleNamespace(revfile=io.StringIO(), seen={})
+        for revid, txt in (first, second):
+            fetch.FsOutput.write_expanded_page(fake, "Alpha", 0, txt, revid=revid)
+        got = fake.revfile.getvalue()
+        if got.count(" --page-- ") != 2 or first[1] not in got or second[1] not in got:
+            return True, {"calls": [f"write_expanded_page('Alpha', 0, {t!r}, revid={r})" for r, t in (first, second)], "records_stored": got.count(" --page-- "),
+                          "consequence": "a title listed with a pinned revision and without one: the current text is never stored"}, "record-dropped"
     return False, {"cases": 3}, None
 
 
